@@ -62,22 +62,36 @@ def run_shard(mod_name, shard, workdir, idx, timeout):
         json.dump(shard, f)
     cmd = [PY, "-B", "-X", "faulthandler", "-m", "vf.worker", mod_name, inp, out]
     t0 = time.time()
+    p_pid = [0]
     try:
-        p = subprocess.run(
+        proc = subprocess.Popen(
             cmd,
             cwd=ROOT,
             env=worker_env(),
             stdin=subprocess.DEVNULL,
             stdout=subprocess.PIPE,
             stderr=subprocess.PIPE,
-            timeout=timeout,
             start_new_session=True,
         )
+        p_pid[0] = proc.pid
+        try:
+            out_b, err_b = proc.communicate(timeout=timeout)
+        except subprocess.TimeoutExpired:
+            try:
+                os.killpg(proc.pid, 9)
+            except Exception:
+                proc.kill()
+            out_b, err_b = proc.communicate()
+            raise subprocess.TimeoutExpired(cmd, timeout, output=out_b, stderr=err_b)
+        p = subprocess.CompletedProcess(cmd, proc.returncode, out_b, err_b)
     except subprocess.TimeoutExpired as e:
-        return {
-            "inconclusive": ["shard %d: watchdog fired after %ds" % (idx, timeout)],
-            "stderr": (e.stderr or b"").decode("utf-8", "replace")[-2000:],
-        }
+        # the whole process group of the worker (children started with multiprocessing)
+        try:
+            os.killpg(p_pid[0], 9)
+        except Exception:
+            pass
+        tail = (e.stderr or b"").decode("utf-8", "replace")[-6000:]
+        return {"inconclusive": ["shard %d: watchdog fired after %ds %s" % (idx, timeout, ("; stderr: " + tail) if os.environ.get("VERIF_DUMP_AFTER") else "")]}
     dt = time.time() - t0
     if not os.path.exists(out):
         return {
